@@ -94,7 +94,7 @@
  * @retval  errno=ESZEROL    when dmax = 0
  * @retval  errno=ESLEMAX    when dmax > RSIZE_MAX_STR
  * @retval  errno=EOVERFLOW  when dmax > size of dest
- * @retval  errno=ESUNTERM   endline or eof not encountered after storing
+ * @retval  errno=ESNOSPC    endline or eof not encountered after storing
  *                           dmax-1 characters to dest.
  *
  * @see
